@@ -138,4 +138,47 @@ def r21c(F):
     return r
 
 
-RULES = [r21a, r21b, r21c]
+def r21h(F):
+    r = RuleResult("R21h", "a use does not close the shape of an unknown symbol",
+                   "when `s.f` is checked for a symbol `s` of unknown shape (Shape::Hole: a function parameter, `env`), the entry the "
+                   "checker stores for `s` must still admit `s.g`: either nothing closed is stored, or a missing field of such a shape "
+                   "is not a TypeErr", floor=1)
+    fn = F.fn("<ucglib::ast::Expression as ucglib::ast::typecheck::DeriveShape>::derive_shape")
+    o = Origins(fn)
+    ins = [(b, t) for b, t in fn.calls() if callee(t).endswith("BTreeMap::insert")]
+    infer = [(b, t) for b, t in fn.calls() if callee(t).startswith(TC + "infer_")]
+    sites = []
+    for b, t in ins:
+        labs = o.at(t["args"][2], b)
+        srcs = [c for c in calls_in(labs) if c.startswith(TC + "infer_")]
+        if srcs:
+            sites.append((b, srcs[0]))
+    need(sites or not infer, "derive_shape calls an infer_* helper but its result is not stored: idiom not recognised")
+    if not sites:
+        r.inst("Hole-symbol:no-inference-stored", fn.where(), True, "nothing is stored for a symbol of unknown shape")
+        return r
+    # the lookup of a missing field in a Tuple shape
+    closed = False
+    for name in (TC + "derive_dot_expression", TC + "resolve_tuple_field"):
+        f2 = F.fn(name)
+        for b2, j, pl, rv, m in f2.assigns():
+            if rv["k"] == "agg" and rv.get("adt") == SHAPE and rv.get("variant") == "TypeErr":
+                strs = list(util.str_consts(f2))
+                for b3, j3, pl3, rv3, m3 in f2.assigns():
+                    for o3 in rv3.get("ops", []) or []:
+                        if isinstance(o3, dict) and "const" in o3:
+                            strs.append(str(o3["const"]))
+                if any("not found in tuple" in x for x in strs):
+                    closed = True
+    for b, src in sites:
+        h = F.fn(src)
+        builds_tuple = any(rv["k"] == "agg" and rv.get("adt") == SHAPE and rv.get("variant") == "Tuple" for b2, j, pl, rv, m in h.assigns())
+        bad = builds_tuple and closed
+        r.inst("Hole-symbol:Tuple-from-single-use", fn.where(b), not bad,
+               "the stored shape stays open" if not bad else
+               "after `s.f` the checker stores Tuple{f} for the unknown symbol `s` and a field missing from a Tuple shape is a TypeErr: "
+               "`let g = func(v) => v.x + v.y;` and `let a = env.FOO; let b = env.BAR;` are rejected although they evaluate")
+    return r
+
+
+RULES = [r21a, r21b, r21c, r21h]
